@@ -17,7 +17,7 @@ fn undamaged(thorough: bool) -> Vec<Base> {
     let ents: &[Entropy] = &[Entropy::Pattern, Entropy::Constant, Entropy::Noise];
     for e in ents {
         let a1 = families::a1(*e);
-        progs.extend(if thorough { a1 } else { a1.into_iter().step_by(3).collect() });
+        progs.extend(a1);
     }
     progs.extend(families::a3(Entropy::Pattern, if thorough { 3 } else { 8 }));
     progs.extend(families::tree(3, if thorough { 6 } else { 5 }, 2, &[1, CHUNK + 1, BLOCK, BLOCK + 1], Entropy::Pattern));
